@@ -1815,3 +1815,5 @@ def run(chk, tier):
     chk.guard('C15.f', lambda: c15.rule_case_conversion(chk, prog, tier))     # case constants that are equal after conversion to the controlling type are duplicates and are diagnosed
     from props import c09
     chk.guard('C09.f', lambda: c09.rule_redecl_types(chk, prog, tier))
+    from props import c05
+    chk.guard('C05.e', lambda: c05.rule_compat(chk, prog, tier))          # redeclaration, assignment and initialisation with an incompatible type are constraint violations: typecompatible must not relate function types whose parameter lists differ in length
